@@ -304,6 +304,7 @@ type zzvKWorld struct {
 	opByKind map[string][]*zzvKOpInfo
 	flood      *zzvKFlood
 	gate       *zzvKGate
+	udpDest    *zzvKUDPDest
 	raceGroups map[int]bool // scenarios of the close-race driver (only a sample of them goes to TLC)
 	raceSample int
 }
@@ -367,6 +368,84 @@ func zzvKSessionMutex(handler any, sid uint64) (mu *sync.Mutex, err error) {
 		return nil, fmt.Errorf("session key has no mutex")
 	}
 	return (*sync.Mutex)(unsafe.Pointer(muv.UnsafeAddr())), nil
+}
+
+// zzvKUDPDest: a UDP destination.  Datagrams to `flood` are answered with a burst of replies (the destination keeps
+// replying while the association is torn down); datagrams to `gate` are only remembered - the harness replies itself.
+type zzvKUDPDest struct {
+	flood, gate *net.UDPConn
+	mu          sync.Mutex
+	gateSrc     *net.UDPAddr
+	burst       []byte
+}
+
+func zzvKStartUDPDest(t testing.TB, burst []byte) *zzvKUDPDest {
+	d := &zzvKUDPDest{burst: burst}
+	var err error
+	if d.flood, err = net.ListenUDP("udp", &net.UDPAddr{IP: net.IPv4(127, 0, 0, 1)}); err != nil {
+		t.Fatalf("keys: udp flood listen: %v", err)
+	}
+	if d.gate, err = net.ListenUDP("udp", &net.UDPAddr{IP: net.IPv4(127, 0, 0, 1)}); err != nil {
+		t.Fatalf("keys: udp gate listen: %v", err)
+	}
+	n := zzvEnvInt("ZZV_UDP_BURST", 120)
+	go func() {
+		buf := make([]byte, 2048)
+		for {
+			_, addr, err := d.flood.ReadFromUDP(buf)
+			if err != nil {
+				return
+			}
+			go func() {
+				for i := 0; i < n; i++ {
+					d.flood.WriteToUDP(d.burst, addr)
+					if i%4 == 3 {
+						time.Sleep(20 * time.Microsecond)
+					}
+				}
+			}()
+		}
+	}()
+	go func() {
+		buf := make([]byte, 2048)
+		for {
+			_, addr, err := d.gate.ReadFromUDP(buf)
+			if err != nil {
+				return
+			}
+			d.mu.Lock()
+			d.gateSrc = addr
+			d.mu.Unlock()
+		}
+	}()
+	t.Cleanup(func() { d.flood.Close(); d.gate.Close() })
+	return d
+}
+
+func (d *zzvKUDPDest) gateSource() *net.UDPAddr {
+	d.mu.Lock()
+	defer d.mu.Unlock()
+	s := d.gateSrc
+	d.gateSrc = nil
+	return s
+}
+
+// zzvKRWMutexOf returns the unexported RWMutex `mu` of a *udp.Association / *icmp.Session
+func zzvKRWMutexOf(obj any) (mu *sync.RWMutex, err error) {
+	defer func() {
+		if r := recover(); r != nil {
+			mu, err = nil, fmt.Errorf("reflection failed: %v", r)
+		}
+	}()
+	v := reflect.ValueOf(obj)
+	if v.Kind() != reflect.Ptr || v.IsNil() {
+		return nil, fmt.Errorf("no object")
+	}
+	f := v.Elem().FieldByName("mu")
+	if !f.IsValid() || f.Type() != reflect.TypeOf(sync.RWMutex{}) {
+		return nil, fmt.Errorf("object has no RWMutex mu")
+	}
+	return (*sync.RWMutex)(unsafe.Pointer(f.UnsafeAddr())), nil
 }
 
 func zzvKStartFlood(t testing.TB) *zzvKFlood {
@@ -526,6 +605,8 @@ func zzvKNewWorld(t *testing.T, nt int, seed int64) *zzvKWorld {
 	w.udpEcho = zzvKStartUDPEcho(t)
 	w.flood = zzvKStartFlood(t)
 	w.gate = zzvKStartGate(t)
+	w.udpDest = zzvKStartUDPDest(t, []byte("ZZV-DATAGRAM-REPLY-PLAINTEXT-"+strings.Repeat("r", 60)))
+	w.markers = append(w.markers, []byte("ZZV-DATAGRAM-REPLY-PLAINTEXT-"))
 	w.closed = zzvKClosedPort(t)
 	w.dns = zzvKStartDNS(t)
 	w.icmpOK = zzvKICMPAvailable()
@@ -730,8 +811,11 @@ func (w *zzvKWorld) runOp(kind, class string, info *zzvKOpInfo) error {
 	marker := w.newMarker()
 	info.Kind, info.Class, info.Marker = kind, class, marker
 	pk := kind
-	if kind == "udp-late-ack" {
+	if kind == "udp-late-ack" || strings.HasPrefix(kind, "udp-close") {
 		pk = "udp"
+	}
+	if strings.HasPrefix(kind, "icmp") {
+		pk = "icmp"
 	}
 	if strings.HasPrefix(kind, "close-race") {
 		pk = "tcp-ip"
@@ -878,6 +962,132 @@ func (w *zzvKWorld) runOp(kind, class string, info *zzvKOpInfo) error {
 		time.Sleep(500 * time.Microsecond)
 		unlocked = true
 		mu.Unlock() // hand-off chain in arrival order
+		return nil
+	case "udp-close-race":
+		// the destination keeps replying while the ingress closes the association
+		sid, err := a.CreateUDPAssociation(ctx, &net.UDPAddr{IP: net.IPv4(127, 0, 0, 1), Port: 40000 + n})
+		if err != nil {
+			return err
+		}
+		dst := w.udpDest.flood.LocalAddr().(*net.UDPAddr)
+		since := w.lastSeq()
+		if err := a.RelayUDPDatagram(sid, dst, uint16(dst.Port), protocol.AddrTypeIPv4, []byte{127, 0, 0, 1}, p); err != nil {
+			a.CloseUDPAssociation(sid)
+			return err
+		}
+		if !zzvWaitFor(10*time.Second, func() bool { return w.framesTo("A", protocol.FrameUDPDatagram, since) > 0 }) {
+			a.CloseUDPAssociation(sid)
+			return fmt.Errorf("no UDP reply datagram reached the ingress")
+		}
+		time.Sleep(time.Duration(w.rng.Intn(1200)) * time.Microsecond)
+		a.CloseUDPAssociation(sid)
+		return nil
+	case "udp-close-lock":
+		// deterministic variant: the harness holds the exit association's lock, the destination's reply is read
+		// (readLoop queues on the lock), the ingress closes the association (the teardown queues behind it), the lock is
+		// released in strict arrival order: teardown runs between "datagram read" and "datagram sealed"
+		sid, err := a.CreateUDPAssociation(ctx, &net.UDPAddr{IP: net.IPv4(127, 0, 0, 1), Port: 40000 + n})
+		if err != nil {
+			return err
+		}
+		closedAssoc := false
+		defer func() {
+			if !closedAssoc {
+				a.CloseUDPAssociation(sid)
+			}
+		}()
+		dst := w.udpDest.gate.LocalAddr().(*net.UDPAddr)
+		w.udpDest.gateSource()
+		if err := a.RelayUDPDatagram(sid, dst, uint16(dst.Port), protocol.AddrTypeIPv4, []byte{127, 0, 0, 1}, p); err != nil {
+			return err
+		}
+		var src *net.UDPAddr
+		if !zzvWaitFor(10*time.Second, func() bool { src = w.udpDest.gateSource(); return src != nil }) {
+			return fmt.Errorf("the datagram did not reach the destination")
+		}
+		// a first reply goes through normally
+		since := w.lastSeq()
+		w.udpDest.gate.WriteToUDP(w.udpDest.burst, src)
+		if !zzvWaitFor(10*time.Second, func() bool { return w.framesTo("A", protocol.FrameUDPDatagram, since) > 0 }) {
+			return fmt.Errorf("no UDP reply datagram reached the ingress")
+		}
+		w.m.Quiesce(5*time.Second, 5*time.Millisecond)
+		var lastSid uint64
+		found := false
+		fr := w.m.Net.Frames()
+		for i := len(fr) - 1; i >= 0; i-- {
+			if fr[i].Type == protocol.FrameUDPOpen && fr[i].To == w.exitName() {
+				lastSid, found = fr[i].StreamID, true
+				break
+			}
+		}
+		x := w.m.Nodes[w.exitName()].A
+		if !found || x.udpHandler == nil || x.udpHandler.GetAssociation(lastSid) == nil {
+			return fmt.Errorf("exit association not found")
+		}
+		mu, err := zzvKRWMutexOf(x.udpHandler.GetAssociation(lastSid))
+		if err != nil {
+			return err
+		}
+		mu.Lock()
+		unlocked := false
+		defer func() {
+			if !unlocked {
+				mu.Unlock()
+			}
+		}()
+		w.udpDest.gate.WriteToUDP(w.udpDest.burst, src) // read by readLoop, which then queues on the lock
+		time.Sleep(3 * time.Millisecond)
+		closedAssoc = true
+		a.CloseUDPAssociation(sid) // UDP_CLOSE reaches the exit: the teardown queues on the lock
+		time.Sleep(3 * time.Millisecond)
+		mu.Unlock()
+		mu.Lock() // barge in: the first waiter finds the lock taken after > 1 ms -> strict FIFO hand-off from now on
+		time.Sleep(500 * time.Microsecond)
+		unlocked = true
+		mu.Unlock()
+		return nil
+	case "icmp-close-race", "icmp-ws-close-race":
+		// a burst of echo requests; the session is closed while the replies are being read at the exit
+		if !w.icmpOK {
+			return errZZVSkipped
+		}
+		if len(p) > 600 {
+			p = p[:600]
+		}
+		if kind == "icmp-ws-close-race" {
+			s, err := a.OpenICMPSession(ctx, w.exitID(), net.IPv4(127, 0, 0, 1))
+			if err != nil {
+				return err
+			}
+			for i := 0; i < zzvEnvInt("ZZV_ICMP_BURST", 100); i++ {
+				select {
+				case s.SendEcho <- &health.ICMPEchoRequest{Identifier: uint16(2000 + n), Sequence: uint16(i + 1), Payload: p}:
+				case <-time.After(2 * time.Second):
+					s.Close()
+					return fmt.Errorf("ICMP session does not take echo requests")
+				}
+			}
+			if d := w.rng.Intn(3); d > 0 {
+				time.Sleep(time.Duration(d*60) * time.Microsecond)
+			}
+			s.Close()
+			return nil
+		}
+		sid, err := a.CreateICMPSession(ctx, net.IPv4(127, 0, 0, 1))
+		if err != nil {
+			return err
+		}
+		for i := 0; i < zzvEnvInt("ZZV_ICMP_BURST", 100); i++ {
+			if err := a.RelayICMPEcho(sid, uint16(2000+n), uint16(i+1), p); err != nil {
+				a.CloseICMPSession(sid)
+				return err
+			}
+		}
+		if d := w.rng.Intn(3); d > 0 {
+			time.Sleep(time.Duration(d*60) * time.Microsecond)
+		}
+		a.CloseICMPSession(sid)
 		return nil
 	case "udp-late-ack":
 		// the first open wait runs into its deadline while the ACK is held on the last link towards the ingress;
@@ -1135,6 +1345,8 @@ type zzvKTun struct {
 	hopsSeen map[int]bool
 	nData, nSealed, nMarker, nFin, nZeroKey int
 	race bool
+	closeSeen bool // a CLOSE / RESET frame of this tunnel has been on a wire
+	nAfterClose int // data frames not sealed under the tunnel key that were written after that
 	degOpen, degAck bool // an OPEN / ACK of this tunnel carried a degenerate (e.g. all-zero) ephemeral key
 	plainFwd int
 	gotErr bool
@@ -1293,6 +1505,11 @@ func (w *zzvKWorld) buildTrace() *zzvKTraceResult {
 				continue
 			}
 		}
+		if x.f.Type == protocol.FrameStreamClose || x.f.Type == protocol.FrameStreamReset || x.f.Type == protocol.FrameUDPClose || x.f.Type == protocol.FrameICMPClose {
+			if tu := bySid[zzvKSidKey{x.f.Link, x.f.StreamID}]; tu != nil {
+				tu.closeSeen = true
+			}
+		}
 		if d.Class == "other" {
 			for _, mk := range w.markers {
 				if bytes.Contains(x.f.Payload, mk) {
@@ -1389,6 +1606,12 @@ func (w *zzvKWorld) buildTrace() *zzvKTraceResult {
 			base["ev"], base["dir"], base["ct"], base["sealed"], base["marker"], base["len"] = "Data", dir, ct, sealed, marker, len(d.Data)
 			if zerokey {
 				base["zerokey"] = true
+			}
+			if tu.closeSeen {
+				base["afterclose"] = true
+				if !sealed {
+					tu.nAfterClose++
+				}
 			}
 			tu.events = append(tu.events, zzvKEv{ord, base})
 			if (dir == "fwd" && hop == w.nt+1) || (dir == "bwd" && hop == 1) {
@@ -1568,6 +1791,9 @@ func TestZZVKeysTrace(t *testing.T) {
 			var wg sync.WaitGroup
 			var mine []*zzvKOpInfo
 			for _, op := range ops {
+				if strings.HasSuffix(op[0], "-close-race") {
+					w.raceGroups[group] = true // statistical driver, many frames: judged by the counters, sampled for TLC
+				}
 				info := &zzvKOpInfo{Group: group, Kind: op[0], Class: op[1]}
 				infos = append(infos, info)
 				mine = append(mine, info)
@@ -1623,6 +1849,15 @@ func TestZZVKeysTrace(t *testing.T) {
 			for i := 0; i < zzvEnvInt("ZZV_LOCKRACE", 2); i++ {
 				run([2]string{"close-race-tcp", "marker"})
 				run([2]string{"close-race-fwd", "marker"})
+			}
+			// datagram kinds: teardown of the association / session while the destination is replying
+			for i := 0; i < zzvEnvInt("ZZV_DGLOCK", 0); i++ {
+				run([2]string{"udp-close-lock", "marker"})
+			}
+			for i := 0; i < zzvEnvInt("ZZV_DGRACE", 0); i++ {
+				run([2]string{"udp-close-race", "marker"})
+				run([2]string{"icmp-close-race", "marker"})
+				run([2]string{"icmp-ws-close-race", "marker"})
 			}
 		}
 		// close / reset racing with return-direction data
@@ -1683,7 +1918,7 @@ func TestZZVKeysTrace(t *testing.T) {
 			zzvEmit("tunnel", map[string]any{"nt": nt, "group": tu.group, "kind": tu.kind, "rid": fmt.Sprintf("%d", tu.rid),
 				"keyfps": tu.keyFps, "sites": tu.sites, "data": tu.nData, "sealed": tu.nSealed, "marker": tu.nMarker,
 				"plain_fwd": tu.plainFwd, "err": tu.gotErr, "zerokey": tu.nZeroKey, "race": tu.race,
-				"deg_open": tu.degOpen, "deg_ack": tu.degAck})
+				"deg_open": tu.degOpen, "deg_ack": tu.degAck, "unsealed_after_close": tu.nAfterClose})
 		}
 		for _, an := range tr.Anomalies {
 			an["nt"] = nt
